@@ -38,6 +38,7 @@ func runC05(p *eng.Prog, r *eng.Report, tier string) {
 	handlerWriterKeepsTheLock(c, "C05.15")
 	attrGetNotUsed(c, "C05.16")
 	depthCountersDoNotWrap(c, "C05.18")
+	c05SendHandsReaderOn(c, "C05.19")
 	c05ContentNamespaceFromRole(c, "C05.17")
 	nEnum := enumExhaustive(c, "C05.13", []string{"stanza"})
 	c.r.Floor("C05.13", "enumeration methods in package stanza", nEnum, 2)
@@ -1003,4 +1004,30 @@ func c05ContentNamespaceFromRole(c *cx, id string) {
 		}
 	}
 	c.r.Floor(id, "stores of the output stream's content namespace", n, 4)
+}
+
+// c05SendHandsReaderOn (C05.19): Session.Send / SendElement copy the caller's
+// reader to the wire inside the critical section of send(). The reader that
+// send() gets is the caller's own: a wrapper that can fail on its own account
+// in the middle of the element (a "stop when the context has ended" reader)
+// turns a cancelled Send into a half-written element, inside which the next
+// transmit is nested (F44 is the same failure for a reader of the caller's
+// that fails by itself).
+func c05SendHandsReaderOn(c *cx, id string) {
+	n := 0
+	for _, name := range []string{"(*Session).Send", "(*Session).SendElement"} {
+		f := c.fn(id, "", name)
+		if f == nil {
+			continue
+		}
+		for _, cl := range f.Calls("xmpp.send") {
+			if len(cl.Args) < 3 {
+				continue
+			}
+			n++
+			a := f.Norm(cl.Args[2], nil)
+			c.r.Check(id, f, "reader handed to send", "K: the token reader copied inside the critical section is the caller's reader itself (parameter 1)", cl.Pos(), a == "p1", "send gets "+a+": a reader of the library's own that can fail mid-element leaves the element open on the wire")
+		}
+	}
+	c.r.Floor(id, "calls of send in Send / SendElement", n, 2)
 }
